@@ -42,6 +42,7 @@ type Obj struct {
 	V      Value
 	id     int
 	frozen bool // shared across paths (package-level initial data): writes are engine errors
+	global bool // the cell of a package-level variable
 	label  string
 }
 
